@@ -238,7 +238,7 @@ def main(tier, seed):
     cov = aggregate(results)
     cov["rule"] = ("pin_count 1 (stages 0-3; 8- and 16-bit bus) and 2: full BFS; pin_count 4/5/9 (multi-chunk Mode and SetClr): "
                    "conforming driver with write-data tokens, BFS to a state/time cap (not exhaustive, counted in configs_capped)")
-    return finish(PID, tier, seed, "model_checking", cov, ASSUMPTIONS, t0, results)
+    return finish(PID, tier, seed, "model_checking", cov, ASSUMPTIONS, t0, results, min_explored=int(0.9 * len(results)))
 
 
 ASSUMPTIONS = [
